@@ -182,7 +182,20 @@ func VerifHarness_C17_crash() {
 	// the interrupted operation
 	var pending *c16Msg
 	N1, T1 := N, T
-	switch verifConc(ndInt("interrupted-op", 0, 3)) {
+	resetting := false
+	switch verifConc(ndInt("interrupted-op", 0, 5)) {
+	case 4:
+		verifCase("reset")
+		resetting = true
+		store.Reset()
+		N1, T1 = 1, 1
+	case 5:
+		// the very first creation of the store's files is interrupted
+		verifCase("first-creation")
+		verifAssume(nDone == 0)
+		vfs = &verifFileSystem{}
+		vfs.mark()
+		newFileStore(c16Session, "d", true)
 	case 0:
 		verifCase("save-and-incr")
 		b := c16Bytes("pending")
@@ -224,6 +237,25 @@ func VerifHarness_C17_crash() {
 		return
 	}
 	got, err := re.GetMessages(1, 70)
+	if resetting {
+		// a reset interrupted half-way may leave all, some or none of the old messages; what matters is that the store
+		// opens, the counters are the old or the new ones and nothing foreign is returned
+		if err == nil {
+			for _, g := range got {
+				ok := false
+				for _, d := range done {
+					if verifEqBytes(g, d.b) {
+						ok = true
+					}
+				}
+				verifAssert(ok, "reset-crash-returns-only-saved-messages")
+			}
+		}
+		rN, rT := re.NextSenderMsgSeqNum(), re.NextTargetMsgSeqNum()
+		verifAssert(rN == N || rN == 1, "reset-crash-sender-counter-before-or-after")
+		verifAssert(rT == T || rT == 1, "reset-crash-target-counter-before-or-after")
+		return
+	}
 	verifAssert(err == nil, "messages-readable-after-crash")
 	if err != nil {
 		return
